@@ -8,6 +8,7 @@ package simrt
 
 import (
 	"fmt"
+	"os"
 	"runtime/debug"
 	"strings"
 	"time"
@@ -87,6 +88,7 @@ type Sim struct {
 	pctPts  []uint64
 	fair    bool
 	start   int64
+	elapsed int64
 	Stats   Stats
 }
 
@@ -99,6 +101,9 @@ type Stats struct {
 	CondWait   uint64
 	SimNanos   int64
 }
+
+// Debug prints task life-cycle events to stderr.
+var Debug = os.Getenv("VERIF_DEBUG") != ""
 
 // S is the running simulation (nil outside Run).
 var S *Sim
@@ -187,7 +192,7 @@ func Run(cfg Config, main func()) *Result {
 	S = nil
 	s.Stats.Steps = s.steps
 	s.Stats.Choices = s.choices
-	s.Stats.SimNanos = s.now - s.start
+	s.Stats.SimNanos = s.elapsed
 	return &Result{Outcome: s.outcome, Fingerprint: s.fp, SchedPrint: s.fpSched, Decisions: s.dec, Stats: s.Stats}
 }
 
@@ -264,6 +269,9 @@ func (s *Sim) abort(o *Outcome) {
 
 //go:norace
 func (s *Sim) exitTask(t *Task) {
+	if Debug {
+		fmt.Fprintf(os.Stderr, "simrt: step %d task %d %s exits (killed=%v)\n", s.steps, t.ID, t.Name, t.killed)
+	}
 	t.state = stDone
 	j := 0
 	for _, x := range s.tasks {
@@ -512,6 +520,9 @@ func Go(name string, f func()) {
 		panic(killSentinel)
 	}
 	t := s.newTask(name, s.cur.Group)
+	if Debug {
+		fmt.Fprintf(os.Stderr, "simrt: step %d task %d %s spawned by %d (%s)\n", s.steps, t.ID, t.Name, s.cur.ID, s.cur.Tag)
+	}
 	s.startTask(t, f)
 	s.schedPoint()
 }
@@ -582,6 +593,11 @@ func WaitUntil(what string, cond func() bool) {
 	t := s.cur
 	for !cond() {
 		if !OthersRunnable() {
+			// nothing else can run, so this evaluation cannot be overtaken
+			// (cond itself may contain scheduling points)
+			if cond() {
+				return
+			}
 			s.abort(&Outcome{Kind: "deadlock", Detail: "waiting for " + what + ": " + s.deadlockOutcome().Detail, Task: t.Name, Tag: t.Tag})
 		}
 		t.polling = true
@@ -692,12 +708,16 @@ func Now() time.Time {
 	switch s.cfg.Clock {
 	case 1:
 	case 2:
-		s.now += int64(1000 + s.clk.Uint64n(50_000_000))
+		d := int64(1000 + s.clk.Uint64n(50_000_000))
+		s.now += d
+		s.elapsed += d
 		if s.clk.Chance(0.05) {
 			s.now += int64(s.clk.Uint64n(7200_000_000_000)) - 3600_000_000_000
 		}
 	default:
-		s.now += int64(1000 + s.clk.Uint64n(20_000_000))
+		d := int64(1000 + s.clk.Uint64n(20_000_000))
+		s.now += d
+		s.elapsed += d
 	}
 	return time.Unix(0, s.now)
 }
